@@ -1025,14 +1025,16 @@ func (propC14) Judge(sc *Scenario) *Verdict {
 				// An I/O error may make the read fail, or cut the input short; it must
 				// never produce a result that neither the error nor the delivered
 				// prefix explains.
-				surfaced := r.Err != "" && r.Err != "flags.IniError" && r.Err != "flags.Error"
-				if surfaced {
-					v.stat("probe.read-error-surfaced")
+				// Any error is an acceptable outcome of a failing stream (whatever its
+				// type or wording). Only a read that CLAIMS SUCCESS is held to account:
+				// it must then mean exactly what the delivered bytes mean.
+				if r.Err != "" {
+					v.stat("probe.read-error-reported-as-error")
 				} else {
-					v.stat("probe.read-error-masked")
+					v.stat("probe.read-error-masked-success")
 					pre := run("delivered prefix", text[:at], nil, 0)
 					if v.OK && !sameRead(pre, r) {
-						v.fail("c14:io-error-corrupts-result", fmt.Sprintf("a read error (%s after %d of %d bytes) did not surface, and the result differs from reading just the %d delivered bytes:\n  with error: %s\n  prefix only: %s\ninput prefix: %s",
+						v.fail("c14:io-error-corrupts-result", fmt.Sprintf("a read error (%s after %d of %d bytes) was not reported, the read returned success, and the result differs from reading just the %d delivered bytes:\n  with error: %s\n  prefix only: %s\ninput prefix: %s",
 							p.ErrKind, at, len(text), at, readSummary(r), readSummary(pre), q(clip(text[:at], 800))))
 					}
 				}
